@@ -147,7 +147,7 @@ pub fn run(tier: Tier) -> ! {
     let completed_min = per.iter().filter_map(|p| p["bound_completed"].as_u64()).min();
     cov.insert("min_deviation_bound_completed".into(), json!(completed_min));
     cov.insert("instances_capped_by_time".into(), json!(per.iter().filter(|p| p["capped"].as_bool() == Some(true)).count()));
-    cov.insert("programs".into(), json!(per));
+    cov.insert("program_list".into(), json!(per));
     cov.insert("samples".into(), json!(samples.take()));
     rep.finish(
         cov,
